@@ -708,6 +708,9 @@ func (e *termEngine) model(fn *ssa.Function) *memModel {
 			n++
 			switch in := in.(type) {
 			case *ssa.Store:
+				if isSelfStore(in) {
+					continue // `*p = *p` (named-result spill): no effect
+				}
 				root, path := e.addrPath(in.Addr)
 				add(&memWrite{instr: in, root: root, rootKey: e.rootKey(root), path: path, val: in.Val})
 			case *ssa.MapUpdate:
@@ -723,6 +726,32 @@ func (e *termEngine) model(fn *ssa.Function) *memModel {
 		}
 	}
 	return m
+}
+
+// isSelfStore: the stored value is a load of the same address earlier in the
+// same block with no memory effect in between.
+func isSelfStore(st *ssa.Store) bool {
+	ld, ok := st.Val.(*ssa.UnOp)
+	if !ok || ld.Op != token.MUL || ld.X != st.Addr || ld.Block() != st.Block() {
+		return false
+	}
+	seen := false
+	for _, in := range st.Block().Instrs {
+		if in == ssa.Instruction(ld) {
+			seen = true
+			continue
+		}
+		if in == ssa.Instruction(st) {
+			return seen
+		}
+		if seen {
+			switch in.(type) {
+			case *ssa.Store, *ssa.MapUpdate, ssa.CallInstruction:
+				return false
+			}
+		}
+	}
+	return false
 }
 
 // callWrites lists the locations (rooted in this function's values) a call may
@@ -839,6 +868,35 @@ func (e *termEngine) load(addr ssa.Value, at ssa.Instruction) *Term {
 		}
 	}
 	return e.loadPath(root, path, at)
+}
+
+// ofAtEdge: the value of v (used in block b) when b is entered over its i-th
+// incoming edge: phis of b take that edge's operand and loads in b that no
+// instruction of b precedes with a memory effect read the predecessor's state.
+func (e *termEngine) ofAtEdge(v ssa.Value, b *ssa.BasicBlock, i int) *Term {
+	switch x := v.(type) {
+	case *ssa.Phi:
+		if x.Block() == b {
+			return e.of(x.Edges[i])
+		}
+	case *ssa.UnOp:
+		if x.Op == token.MUL && x.Block() == b {
+			for _, in := range b.Instrs {
+				if in == ssa.Instruction(x) {
+					pred := b.Preds[i]
+					return e.load(x.X, pred.Instrs[len(pred.Instrs)-1])
+				}
+				if st, ok := in.(*ssa.Store); ok && isSelfStore(st) {
+					continue
+				}
+				switch in.(type) {
+				case *ssa.Store, *ssa.MapUpdate, ssa.CallInstruction:
+					return e.of(v)
+				}
+			}
+		}
+	}
+	return e.of(v)
 }
 
 // preciseAddr: the address term with the actual index terms.
